@@ -205,7 +205,10 @@ func (s *seqCounters) resize(newWindowSize uint32) {
 		copy(newCounters, s.counters)
 		s.counters = newCounters
 	case newWindowSize < s.windowSize:
-		copy(s.counters, s.counters[:newWindowSize])
+		if s._nrCounters > newWindowSize { // Keep the newest counters
+			copy(s.counters, s.counters[s._nrCounters-newWindowSize:s._nrCounters])
+			s._nrCounters = newWindowSize
+		}
 		s.counters = s.counters[:newWindowSize]
 	default:
 		// No change
